@@ -43,6 +43,7 @@ func C02(r *core.Run) {
 	importNames(r)
 	topicNames(r)
 	pathVariablesPerSegment(r)     // ":name" rewritten to "{snake_name}", segment by segment
+	refsCollectedEverywhere(r)     // a type referred to from a service or topic block resolves like any other
 	subPackageFileNameInjective(r) // services and topics of every source file are emitted: no two files share an output name
 	rules.MemoKeys(r, []string{convRel, walkRel, "internal/j5s/protobuild", "internal/j5s/j5parse"}, "memo_sites")
 	packageListingByDirectory(r) // a type reference resolves within the package it names, not in a neighbour with the same prefix
